@@ -308,10 +308,10 @@ def replay_state(st: dict, out: dict, want_event: bool, want_rejects: bool = Tru
         if fingerprint(rel) != fp:
             V(["C20", "C09"], "a rejected request changed an existing relation", request=c)
         cnt["rejects_checked"] = cnt.get("rejects_checked", 0) + 1
-    if want_event:
+    if want_event or not same_shape:
         out["events"].append({"tree": full_tree(rel), "env": {"T1": st["t1"], "T2": st["t2"], "T3": st["t3"]},
                               "rows": st["rows"], "bag": True,
-                              "checks": ["wf", "meta", "coh"] + (["den"] if st["det"] and same_shape else []), "case": case})
+                              "checks": ["wf", "meta", "coh", "denbag", "denlist"], "case": case})
 
 
 def _compound_flags(t) -> list:
@@ -358,11 +358,11 @@ def worker(lines, ctx):
     return out
 
 
-CLAUSE_PROPS = {"wf": ["C14"], "den": ["C02"], "meta": ["C06"], "coh": ["C17"]}
+CLAUSE_PROPS = {"wf": ["C14"], "den": ["C02"], "denbag": ["C02", "C08"], "denlist": ["C11"], "meta": ["C06"], "coh": ["C17"]}
 
 CONFIGS = {
-    "quick": [("SqlQuick.cfg", 6), ("SqlFocusQ.cfg", 4)],
-    "thorough": [("SqlQuick.cfg", 2), ("SqlFocus.cfg", 4), ("SqlGeneral.cfg", 8), ("SqlFocus5.cfg", 16)],
+    "quick": [("SqlQuick.cfg", 6), ("SqlFocusQ.cfg", 4), ("SqlChainQ.cfg", 4)],
+    "thorough": [("SqlQuick.cfg", 2), ("SqlFocus.cfg", 4), ("SqlChain.cfg", 4), ("SqlGeneral.cfg", 8), ("SqlFocus5.cfg", 16)],
 }
 
 
